@@ -181,6 +181,46 @@ def run(tier):
                     if kind != "none" and g != f:
                         if not any(r["id"] == "CS0018" and "`T_%s`" % g in r["msg"] for r in d["pass_reports"]):
                             v.violation("include:included definition does not inform the analysis", dict(info, definition=d["name"], included=g))
+    # (a2) a file that does not parse is still one file: a leaf of the include graph that is reached at least twice (by two include
+    #      statements, or by one and the command line) gets a syntax error; it must be read exactly once and its error reported once
+    bl_jobs = []
+    for (i, c, files, libs) in jobs:
+        for g in sorted(c["loc"]):
+            if g not in c["reachable"] or any(e[0] == g for e in c["inc"]):
+                continue
+            ways = len([e for e in c["inc"] if e[1] == g and e[0] in c["reachable"]]) + (1 if g in c["named"] else 0)
+            if ways < 2:
+                continue
+            pub = []
+            for f in files:
+                d = {k: f[k] for k in f if k != "incs"}
+                if d["path"].endswith("/%s.circom" % g) and "text" in d:
+                    d["text"] = "pragma circom 2.0.0;\ntemplate T_%s() {\n  signal input a\n  signal output o;\n}\n" % g
+                pub.append(d)
+            bl_jobs.append((c, g, pub, libs))
+            break
+    if tier == "quick" and len(bl_jobs) > 600:
+        bl_jobs = rnd.sample(bl_jobs, 600)
+    n_broken = len(bl_jobs)
+    if bl_jobs:
+        bin_, bout = os.path.join(wd, "broken.in"), os.path.join(wd, "broken.out")
+        write_ndjson(bin_, [{"id": i, "files": pub, "libs": libs} for i, (c, g, pub, libs) in enumerate(bl_jobs)])
+        vh(["produce", bin_, bout], timeout=3000)
+        for (c, g, pub, libs), doc in zip(bl_jobs, read_ndjson(bout)):
+            info = {"case": c, "files": pub, "libs": libs, "unparsable": g}
+            if "panic" in doc:
+                v.violation("include:panic " + doc["panic"]["site"], info)
+                continue
+            cnt = collections.Counter(os.path.basename(f["path"])[:-len(".circom")] for f in doc["files"])
+            for f in sorted(c["loc"]):
+                want = 1 if f in c["reachable"] else 0
+                if cnt.get(f, 0) != want:
+                    v.violation("include:file read %s" % ("more than once" if cnt.get(f, 0) > want else "not at all" if want else "although unreachable"),
+                                dict(info, file=f, library_entries=[x["path"] for x in doc["files"]]))
+            perr = [r for r in doc["parse"] if r["primary"] and os.path.basename(r["primary"][0]["file"]) == g + ".circom" and r["id"].startswith("P")]
+            if len(perr) != 1:
+                v.violation("include:parse error of a file reached twice %s" % ("not reported" if not perr else "reported more than once"),
+                            dict(info, parse_reports=[(r["id"], r["msg"]) for r in doc["parse"]]))
     # (b) the real binary
     bjobs = jobs if tier == "quick" else rnd.sample(jobs, min(len(jobs), 12000))
 
